@@ -465,8 +465,19 @@ def derive_vars(fn: ast.FunctionDef, seeds: Set[str]) -> Set[str]:
         if isinstance(n, ast.Assign):
             used = _names(n.value)
             for t in n.targets:
-                for nm in _names(t):
-                    defs.setdefault(nm, set()).update(used)
+                if isinstance(t, ast.Name):
+                    defs.setdefault(t.id, set()).update(used)
+                elif isinstance(t, (ast.Tuple, ast.List)):
+                    for x in t.elts:
+                        if isinstance(x, ast.Name):
+                            defs.setdefault(x.id, set()).update(used)
+                elif isinstance(t, (ast.Subscript, ast.Attribute)):
+                    # a store INTO a container: the container now depends on the value and the index, the index does not change
+                    base = t
+                    while isinstance(base, (ast.Subscript, ast.Attribute)):
+                        base = base.value
+                    if isinstance(base, ast.Name):
+                        defs.setdefault(base.id, set()).update(used | (_names(t.slice) if isinstance(t, ast.Subscript) else set()))
         elif isinstance(n, ast.AugAssign) and isinstance(n.target, ast.Name):
             defs.setdefault(n.target.id, set()).update(_names(n.value))
             # control dependence of a conditional update is handled by the caller (branch variables are added as seeds)
@@ -551,8 +562,10 @@ def value_dependencies(model: Model, ci: CacheInfo) -> Tuple[Set[str], List[str]
     params = set(model.funcs[ci.func].params)
     mod_scope = model.scopes[model.funcs[ci.func].module]
     locals_ = model.local_names(model.funcs[ci.func])
-    dep = {d for d in dep if d in locals_ or d in params}
-    return dep, []
+    # compare at the level of the function's inputs: intermediates are functions of those
+    local_dep = sorted(d for d in dep if d in locals_ or d in params)
+    dep = {d for d in dep if d in params}
+    return dep, local_dep
 
 
 def uses_of_attribute(model: Model, attr: str) -> List[Tuple[str, ast.AST, str]]:
